@@ -83,12 +83,11 @@ def today(chk, tr):
         txt += ("Lemma today_property : forall (S : Type) (cur : S) conf other (w : hworld S), exit_code w = None ->\n"
                 f"  written (hrun cur conf other {cB(tr['npw'])} h_now w) = written w ++ [cur]\n"
                 f"  /\\ exit_code (hrun cur conf other {cB(tr['npw'])} h_now w) = Some conf\n"
-                f"  /\\ pool_open (hrun cur conf other {cB(tr['npw'])} h_now w) = false\n"
                 f"  /\\ dirty (hrun cur conf other {cB(tr['npw'])} h_now w) = dirty w.\n"
                 f"Proof. intros S cur conf other w E. exact (handler_sound cur conf other h_now w {cB(tr['npw'])} today E). Qed.\n")
         ok, _, err = chk.coq_run("today_handler", txt)
-        chk.oblige("today: handler_ok (regenerated safe_exit / terminate_run: close the pool, one forced checkpoint that "
-                   "reaches the dump, exit with the configured code) + instantiated handler_sound", "today", ok,
+        chk.oblige("today: handler_ok (regenerated safe_exit / terminate_run: one forced checkpoint that "
+                   "reaches the dump, then exit with the configured code) + instantiated handler_sound", "today", ok,
                    (err or "") + "\n" + tr["handler"][0])
     else:
         chk.notes.append("tie A (handler) declined: the line hook decides alone")
